@@ -5,7 +5,7 @@
 // into runs of T tests over one private TestRegistry, and trailing chain operations. Runs go through
 // TestRegistry::runAllTests directly or (section command_line_runner_programs) through
 // CommandLineTestRunner::runAllTestsMain, which installs its own SetPointerPlugin and removes it by name.
-// Sections: remove_by_name_enumerated, limit_enumerated, failing_actions_enumerated, unrestored_then_new_plugin_enumerated (all four complete), pointer_programs, chain_programs,
+// Sections: remove_by_name_enumerated, limit_enumerated, failing_actions_enumerated, unrestored_then_new_plugin_enumerated, flags_switched_while_a_test_runs_enumerated (all five complete), pointer_programs, chain_programs,
 // command_line_runner_programs (random). Build variants: asan (exceptions) and asan-noexc (longjmp only).
 //
 // Oracles (all independent of the implementation):
@@ -32,6 +32,13 @@
 //     which empties the table; that test and all later ones are judged as usual: every pointer has, after the post actions,
 //     the value it had before the test's first redirection, whatever happened to the location earlier in the process.
 //     (Re-activating the OLD plugin object over unrestored entries replays them - out of scope, never generated.)
+//   * enabled flags switched WHILE a test runs: scripts may call enable() / disable() on a plugin from any statement of setup / body / teardown, and recording
+//     plugins may do so from their pre / post action. The model orders the events (pre actions head first, the test, post actions tail first) and notes the flag of
+//     every plugin at the two moments its actions are due. Same flag at both moments: judged as always (both actions / neither, usual order). Different flag:
+//     the statement does not say which moment counts ("disabled plugins see neither" vs. "post = exact reverse of pre"), so that plugin's own actions are only counted.
+//     Pointers are judged when an installed SetPointerPlugin was enabled at every redirection of the test and one is enabled from the first to the last post action
+//     (e.g. the test switches the installed, disabled plugin on and then redirects); otherwise the test is unjudged, and when no SetPointerPlugin was enabled at
+//     post-action time its entries are unrestored entries as above.
 #include "verif.h"
 #include <memory>
 #include <stdexcept>
@@ -144,10 +151,14 @@ static void do_set(int t, int v) {
 }
 
 // ================================================================ program description
-enum OpKind { OP_SET, OP_FAIL_CPP, OP_CHECK_CPP, OP_FAIL_C, OP_CHECK_C, OP_THROW_STD, OP_THROW_INT, OP_NKINDS };
-static const char* OPNAME[] = { "set", "FAIL", "CHECK(false)", "FAIL_TEXT_C", "CHECK_C(0)", "throw std::runtime_error", "throw 42" };
-static const char* ENDCLASS[] = { "pass", "fail-cpp", "fail-cpp", "fail-c", "fail-c", "throw", "throw" };
+enum OpKind { OP_SET, OP_FAIL_CPP, OP_CHECK_CPP, OP_FAIL_C, OP_CHECK_C, OP_THROW_STD, OP_THROW_INT, OP_ENABLE, OP_DISABLE, OP_NKINDS };      // OP_ENABLE / OP_DISABLE: the test itself calls enable() / disable() on plugin `target` (index into the universe)
+static const char* OPNAME[] = { "set", "FAIL", "CHECK(false)", "FAIL_TEXT_C", "CHECK_C(0)", "throw std::runtime_error", "throw 42", "enable", "disable" };
+static const char* ENDCLASS[] = { "pass", "fail-cpp", "fail-cpp", "fail-c", "fail-c", "throw", "throw", "pass", "pass" };
 struct Op { uint8_t kind, target, value; };
+static bool is_toggle(int kind) { return kind == OP_ENABLE || kind == OP_DISABLE; }
+static bool is_terminator(int kind) { return kind != OP_SET && !is_toggle(kind); }
+// a recording plugin calls enable() / disable() on another plugin from its pre or post action
+struct ActTog { int by; bool post; int target; bool enable; };
 
 struct Script {
     std::vector<Op> ph[3];
@@ -156,7 +167,10 @@ struct Script {
     int premut_target = 0, premut_value = 0;
     uint32_t pre_fail = 0, post_fail = 0; // bit i: recording plugin i reports a failure for the test (result.addFailure) in its pre / post action
     int complaints = 1;                  // failures added per complaining action
+    std::vector<ActTog> atog;            // enabled flags switched from plugin actions while this test runs
+    std::vector<char> predicted;         // generator's prediction of all enabled flags after the test (only for scripts that switch flags; self-check of the generator, never an oracle)
     Script() { for (int i = 0; i < NT; i++) baseline[i] = -1; }
+    bool switches_flags() const { if (!atog.empty()) return true; for (int p = 0; p < 3; p++) for (const Op& o : ph[p]) if (is_toggle(o.kind)) return true; return false; }
     size_t nsets() const { size_t n = 0; for (int p = 0; p < 3; p++) for (const Op& o : ph[p]) n += o.kind == OP_SET; return n; }
 };
 
@@ -234,11 +248,18 @@ static std::string script_json(const Script& s) {
         auto bits = [](uint32_t m) { std::string x; for (int i = 0; i < 32; i++) if (m >> i & 1) { if (!x.empty()) x += ","; x += std::to_string(i); } return x; };
         j.raw("plugin_actions_reporting_a_failure", vf::J().k("pre_action_of_plugins", bits(s.pre_fail)).k("post_action_of_plugins", bits(s.post_fail)).k("failures_each", s.complaints).str());
     }
+    if (!s.atog.empty()) {
+        std::vector<std::string> v;
+        for (const ActTog& a : s.atog) v.push_back(vf::J().k("action", a.post ? "post" : "pre").k("of_plugin", a.by).k("calls", a.enable ? "enable" : "disable").k("on_plugin", a.target).str());
+        j.raw("plugin_actions_switching_enabled_flags", vf::jarr(v));
+    }
     for (int p = 0; p < 3; p++) {
         std::string a;
         for (const Op& o : s.ph[p]) {
             if (!a.empty()) a += " ";
-            if (o.kind == OP_SET) a += "T" + std::to_string(o.target) + "=v" + std::to_string(o.value); else a += std::string("<") + OPNAME[o.kind] + ">";
+            if (o.kind == OP_SET) a += "T" + std::to_string(o.target) + "=v" + std::to_string(o.value);
+            else if (is_toggle(o.kind)) a += std::string(OPNAME[o.kind]) + "(plugin#" + std::to_string(o.target) + ")";
+            else a += std::string("<") + OPNAME[o.kind] + ">";
         }
         j.k(PH[p], a);
     }
@@ -279,8 +300,12 @@ struct ExecRec {
     int teardown_entered;
     int plugin_failures;                 // failures added to the TestResult by plugin actions of this execution (not by the test)
     int pre_complaints, post_complaints; // plugin actions that reported a failure
-    bool no_facility;                    // no installed, enabled SetPointerPlugin during this test: its redirections stay unrestored, the test is not judged for restoration / limit
-    unsigned unrestored_mask;            // targets this test redirected (completed) without the facility
+    int sets_on, sets_off;               // UT_PTR_SETs attempted while an installed SetPointerPlugin was enabled / while none was (the flag may change while the test runs)
+    void* first_was[NT];                 // value of the location right before this test's first completed redirection of it
+    // enable() / disable() calls made by the test itself (setup / body / teardown), in execution order
+    struct { int8_t plugin; int8_t en; } tog[32];
+    int ntog;
+    int tog_setup, tog_body, tog_teardown, tog_by_pre_action, tog_by_post_action, tog_dropped;
 };
 
 class ScriptShell;
@@ -310,6 +335,14 @@ struct Run {
 static Run* g_run;
 
 // ================================================================ scripted test
+// enable() / disable() called while a test is running (by the test or by a plugin action); the model follows the call
+static bool switch_flag(int p, bool en) {
+    Run& g = *g_run;
+    if (p < 0 || p >= (int) g.plug.size() || !g.plug[p]) return false;      // no live object (never generated)
+    if (en) g.plug[p]->enable(); else g.plug[p]->disable();
+    g.M.enabled[p] = en;
+    return true;
+}
 static void run_phase(int ph) {
     Run& g = *g_run;
     if (!g.script || g.abandoned) return;
@@ -327,13 +360,20 @@ static void run_phase(int ph) {
         switch (o.kind) {
         case OP_SET:
             E.attempted++; E.att_target[o.target]++;
+            if (g.M.spp_active(*g.P)) E.sets_on++; else E.sets_off++;
             {
                 void* was = rd(o.target);
                 do_set(o.target, o.value);
-                if (E.no_facility && !((g.M.stale_mask | E.unrestored_mask) >> o.target & 1)) g.unrestored_orig[o.target] = was;
-                if (E.no_facility) E.unrestored_mask |= 1u << o.target;
+                if (E.done_target[o.target] == 0) E.first_was[o.target] = was;
             }
             E.completed++; E.done_target[o.target]++;
+            break;
+        case OP_ENABLE:
+        case OP_DISABLE:
+            if (switch_flag(o.target, o.kind == OP_ENABLE)) {
+                if (E.ntog < 32) { E.tog[E.ntog].plugin = (int8_t) o.target; E.tog[E.ntog].en = o.kind == OP_ENABLE; E.ntog++; } else E.tog_dropped++;
+                if (ph == 0) E.tog_setup++; else if (ph == 1) E.tog_body++; else E.tog_teardown++;
+            }
             break;
         case OP_FAIL_CPP: E.terminators++; E.last_term_kind = o.kind; FAIL("c17 scripted FAIL"); break;
         case OP_CHECK_CPP: E.terminators++; E.last_term_kind = o.kind; CHECK(g_sink == -12345); break;
@@ -380,14 +420,23 @@ static void plugin_complain(int idx, UtestShell& t, TestResult& r, bool pre) {
     }
     if (pre) g.E.pre_complaints++; else g.E.post_complaints++;
 }
+static void plugin_switches(int idx, bool post) {
+    Run& g = *g_run;
+    if (!g.script || g.abandoned) return;
+    const std::vector<ActTog>& v = g.script->atog;
+    for (size_t i = 0; i < v.size(); i++)
+        if (v[i].by == idx && v[i].post == post && switch_flag(v[i].target, v[i].enable)) { if (post) g.E.tog_by_post_action++; else g.E.tog_by_pre_action++; }
+}
 static void plugin_pre(int idx, UtestShell& t, TestResult& r) {
     Run& g = *g_run;
     logev(L_PRE, idx, shell_id(t));
     if (g.script && g.script->premut_plugin == idx) wr(g.script->premut_target, POOL[g.script->premut_target][g.script->premut_value]);
+    plugin_switches(idx, false);
     plugin_complain(idx, t, r, true);
 }
 static void plugin_post(int idx, UtestShell& t, TestResult& r) {
     logev(L_POST, idx, shell_id(t));
+    plugin_switches(idx, true);
     plugin_complain(idx, t, r, false);
 }
 class RecPlugin : public TestPlugin {
@@ -516,10 +565,12 @@ static void apply_op(Run& g, const ChainOp& op, bool between_tests) {
 }
 
 // ================================================================ judging one test execution
-static void judge_order(Run& g, const char* which, const std::vector<int>& act, const std::vector<int>& exp, const std::string& ctx) {
+// enabled_then: the enabled flag each plugin had when its action was due (= the flag at the start of the test unless flags were switched while the test ran)
+static void judge_order(Run& g, const char* which, const std::vector<int>& act, const std::vector<int>& exp, const std::string& ctx, const std::vector<char>& enabled_then, const std::string& shape) {
     if (act == exp) return;
     vf::Ctx& c = *g.c;
-    const Model& M = g.M_at_test;
+    Model M = g.M_at_test;
+    M.enabled = enabled_then;
     auto has = [](const std::vector<int>& v, int x) { return std::find(v.begin(), v.end(), x) != v.end(); };
     std::string key;
     for (int a : act) if (M.pos(a) < 0) { key = std::string("called-while-not-installed:") + which; break; }
@@ -535,7 +586,7 @@ static void judge_order(Run& g, const char* which, const std::vector<int>& act, 
     }
     if (key.empty()) key = std::string(which) == "pre" ? "order:pre-not-installation-reversed" : "order:post-not-reverse-of-pre";
     auto lst = [&](const std::vector<int>& v) { std::string s; for (int x : v) { s += (x >= 0 && x < (int) g.P->U.size()) ? g.P->U[x].name : "?"; s += " "; } return s; };
-    c.violation(key, ctx + "; " + which + " actions expected [" + lst(exp) + "] observed [" + lst(act) + "]");
+    c.violation(key + shape, ctx + "; " + which + " actions expected [" + lst(exp) + "] observed [" + lst(act) + "]");
 }
 
 static const char* setsclass(int attempted) { return attempted > LIMIT ? "overflow" : "le32"; }
@@ -565,15 +616,13 @@ static void on_test_start(UtestShell* t) {
     if (g.abandoned) { g.script = nullptr; return; }
     for (int i = 0; i < NT; i++) if (st.script.baseline[i] >= 0) { wr(i, POOL[i][st.script.baseline[i]]); c.count("baseline_rewritten_between_tests"); }
     memset(&g.E, 0, sizeof g.E);
-    g.E.no_facility = !g.M.spp_active(*g.P);
     g.script = &st.script;
     g.log_start = g_nlog;
     g.failures_before = g.failures;
     g.cur_shell = t;
     g.cur_test_id = shell_id(*t);
     g.M_at_test = g.M;
-    g.exp_pre.clear();
-    for (int p : g.M.chain) if (g.M.enabled[p] && logs(g.P->U[p].type)) g.exp_pre.push_back(p);     // installation-reversed = head first
+    g.exp_pre.clear();          // computed when the test has ended (on_test_end): enabled flags may be switched while the test runs
 }
 
 static void on_test_end() {
@@ -595,24 +644,64 @@ static void on_test_end() {
     if (E.terminators > 1) c.count("tests_with_two_failing_phases");
     if (E.teardown_entered) c.count("teardown_entered");
 
+    // ---------------- enabled flags switched while the test ran (by the test itself or by plugin actions): what was each plugin's flag when its actions were due?
+    // Model of the sequence only: pre actions head first, then the test, then post actions tail first; an action that is due is decided by the flag at that moment.
+    // A plugin whose flag differs between its two decision points ("unsettled": enabled at pre-action time and disabled at post-action time or vice versa) is
+    // NOT judged - the statement ("disabled plugins see neither", "post = exact reverse of pre") does not say which of the two moments counts for it. Every other
+    // plugin has one unambiguous flag for this test and is judged as usual; plugins that switch flags from their actions are never themselves switched (guarded).
+    const Model& MT = g.M_at_test;
+    const size_t NU = P.U.size();
+    std::vector<char> fl = MT.enabled, pre_dec(NU, 0), post_dec(NU, 0), switched(NU, 0);
+    auto actions_of = [&](int p, bool post) { for (const ActTog& a : S.atog) if (a.by == p && a.post == post && a.target >= 0 && a.target < (int) NU && g.plug[a.target]) { if (fl[a.target] != (char) a.enable) switched[a.target] = 1; fl[a.target] = a.enable; } };
+    for (int p : MT.chain) { pre_dec[p] = fl[p]; if (fl[p] && logs(P.U[p].type)) actions_of(p, false); }
+    for (int i = 0; i < E.ntog; i++) { int p = E.tog[i].plugin; if (fl[p] != (char) E.tog[i].en) switched[p] = 1; fl[p] = E.tog[i].en; }
+    const std::vector<char> post_start = fl;
+    for (auto it = MT.chain.rbegin(); it != MT.chain.rend(); ++it) { int p = *it; post_dec[p] = fl[p]; if (fl[p] && logs(P.U[p].type)) actions_of(p, true); }
+    const std::vector<char>& post_end = fl;
+    bool any_switch = false, installed_switch = false, spp_switched = false, unsettled_any = false, ambiguous = E.tog_dropped > 0;
+    std::vector<char> settled(NU, 1);
+    for (size_t p = 0; p < NU; p++) {
+        if (switched[p]) { any_switch = true; if (MT.pos((int) p) >= 0) { installed_switch = true; if (is_spp(P.U[p].type)) spp_switched = true; } }
+        if (MT.pos((int) p) >= 0 && pre_dec[p] != post_dec[p]) { settled[p] = 0; unsettled_any = true; }
+    }
+    for (const ActTog& a : S.atog) if (a.by >= 0 && a.by < (int) NU && MT.pos(a.by) >= 0 && (!settled[a.by] || switched[a.by])) ambiguous = true;      // never generated
+    bool consumed = false, post_on = false;      // consumed: some installed SetPointerPlugin was enabled when its post action was due; post_on: ... and enabled from the first to the last post action
+    for (int p : MT.chain) if (is_spp(P.U[p].type)) { if (post_dec[p]) consumed = true; if (post_start[p] && post_dec[p] && post_end[p]) post_on = true; }
+    if (ambiguous) c.count("tests_unjudged_a_plugin_that_switches_flags_was_itself_switched");       // expected 0
+    for (int p : MT.chain) if (pre_dec[p] && logs(P.U[p].type) && settled[p]) g.exp_pre.push_back(p);     // installation-reversed = head first
+
     // ---------------- scope: the facility is the plugin plus the macro
     // (a) redirections without an installed, enabled SetPointerPlugin: nothing restores them (expected), their entries stay in the table
     // (b) an OLD plugin object active over such entries replays them (unchanged code too): never generated, guarded here
-    const Model& MT = g.M_at_test;
-    const bool active = !E.no_facility;
-    const bool unjudged = (!active && E.attempted > 0) || (active && MT.stale);
+    // (c) flags switched while the test runs: judged when an installed SetPointerPlugin was enabled at every redirection of the test and one is enabled
+    //     from the first to the last post action ("every pointer a test redirects through the facility ... after the test's post actions"); otherwise unjudged
+    const bool active = post_on && consumed && E.sets_off == 0 && !ambiguous;
+    const bool unjudged = (E.attempted > 0 && !active) || (MT.stale && consumed) || ambiguous;
     const bool fresh = active && !MT.stale && MT.discarded;       // first judged test after a new SetPointerPlugin object was constructed over unrestored entries
-    const std::string shape = fresh ? ":after-unrestored-redirections-and-a-new-plugin-object" : "";
+    const std::string shape = fresh ? ":after-unrestored-redirections-and-a-new-plugin-object" : spp_switched ? ":set-pointer-plugin-switched-while-the-test-ran" : "";
+    const std::string oshape = installed_switch ? ":flags-switched-while-the-test-ran" : "";
     if (fresh) ctx += "; earlier tests redirected pointers while no enabled SetPointerPlugin was installed (never restored), then a new SetPointerPlugin object was constructed";
-    if (!active && E.attempted > 0) {
+    if (any_switch) {
+        ctx += "; enabled flags switched while the test ran (" + std::to_string(E.ntog) + " calls by the test, " + std::to_string(E.tog_by_pre_action) + " by pre actions, " + std::to_string(E.tog_by_post_action) + " by post actions): flags at the start of the test / when the pre action was due / when the post action was due / after the test:";
+        for (int p : MT.chain) { ctx += " " + P.U[p].name + "=" + (MT.enabled[p] ? "1" : "0") + (pre_dec[p] ? "1" : "0") + (post_dec[p] ? "1" : "0") + (post_end[p] ? "1" : "0"); }
+        ctx += "; UT_PTR_SETs with / without an enabled SetPointerPlugin " + std::to_string(E.sets_on) + " / " + std::to_string(E.sets_off);
+    }
+    if (E.attempted > 0 && !active) {
         c.count("tests_redirecting_without_an_active_set_pointer_plugin_unjudged");
+        if (spp_switched) c.count("tests_redirecting_with_the_set_pointer_plugin_switched_meanwhile_unjudged");
+        if (consumed) c.count("tests_unjudged_but_restored_by_an_enabled_plugin_at_post_action_time");
+    }
+    if (E.attempted > 0 && !consumed) {
         c.count("redirections_left_unrestored", (uint64_t) E.completed);
-        if (E.completed > 0) { g.M.stale = true; g.M.stale_mask |= E.unrestored_mask; }
         if (E.terminators == 0 && fails > 0) c.count("table_filled_up_by_unrestored_redirections_test_failed");
         for (int i = 0; i < NT; i++) if (E.done_target[i] > 0 && rd(i) != E.before[i]) c.count("unrestored_locations_left_with_the_redirected_value");
     }
-    if (active && MT.stale) c.count("tests_under_an_old_plugin_object_over_unrestored_entries_unjudged");      // expected 0
-    if (active) { g.M.discarded = false; g.M.discarded_mask = 0; }
+    if ((E.completed > 0 && !consumed) || (ambiguous && E.completed > 0)) {
+        for (int i = 0; i < NT; i++) if (E.done_target[i] > 0) { if (!(g.M.stale_mask >> i & 1)) g.unrestored_orig[i] = E.first_was[i]; g.M.stale_mask |= 1u << i; }
+        g.M.stale = true;
+    }
+    if (consumed && MT.stale) c.count("tests_under_an_old_plugin_object_over_unrestored_entries_unjudged");      // expected 0
+    if (consumed) { g.M.discarded = false; g.M.discarded_mask = 0; }
     if (fresh) {
         c.count("tests_judged_under_a_new_plugin_object_after_unrestored_redirections");
         bool same = false; int visible = 0;
@@ -638,7 +727,7 @@ static void on_test_end() {
             if (after != E.before[i]) {
                 std::string d = ctx + "; target " + std::to_string(i) + " (" + TNAME[i] + ") redirected " + std::to_string(E.done_target[i]) + "x: before " + vname(i, E.before[i]) + " after the post actions " + vname(i, after);
                 if (E.done_target[i] > 0)
-                    c.violation(fresh ? "not-restored" + shape        // the ending / repetition classes do not matter for this history shape: one key
+                    c.violation(!shape.empty() ? "not-restored" + shape        // the ending / repetition classes do not matter for these history shapes: one key each
                                       : std::string("not-restored:redirected=") + (E.done_target[i] >= 2 ? "multi" : "once") + ":ending=" + ending, d + "; table " + setsclass(E.attempted));
                 else
                     c.violation("untouched-target-modified" + shape, d);
@@ -668,15 +757,60 @@ static void on_test_end() {
     for (int i = g.log_start; i < g_nlog; i++) {
         const LogE& e = g_log[i];
         if (e.kind == L_TEST) { seen_test = true; continue; }
-        if (e.kind == L_PRE) { if (seen_test) nesting_bad = true; pre.push_back(e.plugin); }
-        else { if (!seen_test) nesting_bad = true; post.push_back(e.plugin); }
+        bool skip = e.plugin >= 0 && e.plugin < (int) NU && !settled[e.plugin];      // flag differs between its two decision points: not judged, only counted
+        if (e.kind == L_PRE) { if (seen_test) nesting_bad = true; if (skip) c.count("pre_actions_seen_by_unsettled_plugins_unjudged"); else pre.push_back(e.plugin); }
+        else { if (!seen_test) nesting_bad = true; if (skip) c.count("post_actions_seen_by_unsettled_plugins_unjudged"); else post.push_back(e.plugin); }
         if (e.test != g.cur_test_id) wrong_test = true;
     }
     std::vector<int> exp_post(g.exp_pre.rbegin(), g.exp_pre.rend());
     if (E.snapshot_taken && nesting_bad) c.violation("action-outside-nesting", ctx + "; a pre action ran after the test started or a post action before it");
     if (wrong_test) c.violation("action-got-wrong-test", ctx + "; a plugin action received a different test shell");
-    judge_order(g, "pre", pre, g.exp_pre, ctx);
-    judge_order(g, "post", post, exp_post, ctx);
+    if (!ambiguous) {
+        judge_order(g, "pre", pre, g.exp_pre, ctx, pre_dec, oshape);
+        judge_order(g, "post", post, exp_post, ctx, pre_dec, oshape);
+    }
+    // ---------------- flags switched while the test ran: storage of the flag, evidence
+    if (any_switch || S.switches_flags()) {
+        for (size_t i = 0; i < g.plug.size(); i++)
+            if (g.plug[i] && g.plug[i]->isEnabled() != (bool) g.M.enabled[i]) {
+                c.violation("enabled-flag-wrong-after:switch-while-a-test-ran", ctx + "; plugin " + P.U[i].name + " isEnabled()=" + std::to_string(g.plug[i]->isEnabled()));
+                break;
+            }
+        c.count("tests_with_enable_or_disable_calls_while_the_test_ran");
+        if (any_switch) c.count("tests_in_which_an_enabled_flag_changed_while_the_test_ran");
+        if (installed_switch) c.count("tests_in_which_the_flag_of_an_installed_plugin_changed_while_the_test_ran");
+        c.count("flag_switches_by_the_test_in_setup", (uint64_t) E.tog_setup);
+        c.count("flag_switches_by_the_test_in_body", (uint64_t) E.tog_body);
+        c.count("flag_switches_by_the_test_in_teardown", (uint64_t) E.tog_teardown);
+        c.count("flag_switches_by_pre_actions_of_plugins", (uint64_t) E.tog_by_pre_action);
+        c.count("flag_switches_by_post_actions_of_plugins", (uint64_t) E.tog_by_post_action);
+        size_t judged_switched = 0;
+        for (int p : MT.chain) {
+            const bool rec = logs(P.U[p].type);
+            if (!settled[p]) c.count(pre_dec[p] ? (rec ? "unsettled_recording_plugins_enabled_at_pre_disabled_at_post_action_time_unjudged" : "unsettled_plain_plugins_unjudged") : (rec ? "unsettled_recording_plugins_disabled_at_pre_enabled_at_post_action_time_unjudged" : "unsettled_plain_plugins_unjudged"));
+            else if (switched[p] || pre_dec[p] != MT.enabled[p] || post_end[p] != MT.enabled[p]) {
+                judged_switched++;
+                if (rec) c.count(pre_dec[p] ? "switched_but_settled_recording_plugins_judged_as_enabled" : "switched_but_settled_recording_plugins_judged_as_disabled");
+            }
+        }
+        if (spp_switched) {
+            c.count("tests_with_the_set_pointer_plugin_switched_while_the_test_ran");
+            bool on_at_start = false; for (int p : MT.chain) if (is_spp(P.U[p].type) && MT.enabled[p]) on_at_start = true;
+            if (!unjudged && E.completed > 0) {
+                c.count("tests_judged_for_restoration_with_the_set_pointer_plugin_switched_while_the_test_ran");
+                if (!on_at_start) {
+                    c.count("tests_judged_for_restoration_whose_set_pointer_plugin_was_disabled_when_the_pre_actions_ran");
+                    bool by_action = false; for (const ActTog& a : S.atog) if (a.target >= 0 && a.target < (int) NU && is_spp(P.U[a.target].type)) by_action = true;
+                    c.count(by_action ? "set_pointer_plugin_switched_on_by_a_plugin_action_then_judged" : "set_pointer_plugin_switched_on_by_the_test_then_judged");
+                    for (int i = 0; i < NT; i++) if (E.done_target[i] >= 2) { c.count("tests_judged_with_a_repeated_target_and_the_set_pointer_plugin_switched_on_meanwhile"); break; }
+                }
+            }
+            if (consumed && E.completed > 0 && post_start != post_end) c.count("tests_with_flags_switched_by_post_actions_and_redirections");
+        }
+        if (!S.predicted.empty() && S.predicted != g.M.enabled) c.count("generator_prediction_of_the_flags_after_the_test_wrong");      // expected 0 (self-check of the generator, not an oracle)
+        if (installed_switch && !ambiguous) c.nontrivial("switch|" + MT.str(P) + "|" + script_json(S));
+        (void) judged_switched; (void) unsettled_any;
+    }
     c.count("order_logs_compared");
     c.count("pre_actions_seen", pre.size());
     c.count("post_actions_seen", post.size());
@@ -818,9 +952,23 @@ static std::vector<int> allowed_term_kinds() {
 }
 
 // nsets < 0: choose from the distribution
-static Script gen_script(vf::Rng& r, const Program& P, bool spp_active, int nsets, bool small, const Model* M = nullptr, bool outside_ok = false) {
+// force_switch: 0 = by chance, 2 = an installed, disabled SetPointerPlugin is switched on while the test runs
+static Script gen_script(vf::Rng& r, const Program& P, bool spp_active, int nsets, bool small, const Model* M = nullptr, bool outside_ok = false, int force_switch = 0) {
     Script s;
     for (int t = 0; t < NT; t++) if (r.chance(50)) s.baseline[t] = (int8_t) r.below(NV);
+    // enabled flags switched while the test runs (enable() / disable() called by the test or by an action of another plugin):
+    // 1 = recording plugins only, 2 = an installed, disabled SetPointerPlugin is switched on, 3 = the active SetPointerPlugin is switched off (and perhaps on again)
+    int tk = 0, q = -1;
+    bool on_late = false;                // tk == 2: the switch-on sits anywhere in the test (redirections in front of it happen without the facility: unjudged)
+    if (M && !M->chain.empty() && (force_switch || r.chance(small ? 14 : 10))) {
+        int d = (int) r.below(100);
+        tk = force_switch ? force_switch : d < 45 ? 1 : d < 80 ? 2 : 3;
+        std::vector<int> cand;
+        if (tk == 2) for (int p : M->chain) if (is_spp(P.U[(size_t) p].type) && !M->enabled[(size_t) p]) cand.push_back(p);
+        if (tk == 3 && outside_ok) for (int p : M->chain) if (is_spp(P.U[(size_t) p].type) && M->enabled[(size_t) p]) cand.push_back(p);
+        if (tk >= 2) { if (cand.empty() || M->stale) tk = 1; else q = r.pick(cand); }      // an old plugin object is never switched on over unrestored entries
+        if (tk == 2) { on_late = outside_ok && r.chance(20); spp_active = true; }
+    }
     if (nsets < 0) {
         int d = (int) r.below(100);
         if (small) nsets = d < 40 ? 0 : r.range(1, 4);
@@ -854,6 +1002,36 @@ static Script gen_script(vf::Rng& r, const Program& P, bool spp_active, int nset
         std::vector<Op>& v = s.ph[phs[i]];
         size_t at = r.chance(70) ? v.size() : (size_t) r.below(v.size() + 1);
         v.insert(v.begin() + (long) at, o);
+    }
+    if (tk) {
+        std::vector<int> togglers;       // installed, enabled recording plugins: their actions can call enable() / disable() on other plugins (they are never switched themselves)
+        for (int p : M->chain) if (M->enabled[(size_t) p] && logs(P.U[(size_t) p].type) && p != q) togglers.push_back(p);
+        const int tg = (!togglers.empty() && r.chance(45)) ? r.pick(togglers) : -1;
+        auto in_test = [&](int plugin, bool en, int where) {      // where: 0 = first statement of setup (always reached), 1 = anywhere, 2 = last statement of teardown
+            Op o; o.kind = en ? OP_ENABLE : OP_DISABLE; o.target = (uint8_t) plugin; o.value = 0;
+            if (where == 0 || (M->stale && where == 1)) s.ph[0].insert(s.ph[0].begin(), o);
+            else if (where == 2) s.ph[2].push_back(o);
+            else { std::vector<Op>& v = s.ph[r.below(3)]; v.insert(v.begin() + (long) r.below(v.size() + 1), o); }
+        };
+        auto by_action = [&](int plugin, bool en, bool post) { ActTog a; a.by = tg; a.post = post; a.target = plugin; a.enable = en; s.atog.push_back(a); };
+        if (tk == 2) {
+            if (tg >= 0 && r.chance(30)) by_action(q, true, false); else in_test(q, true, on_late ? 1 : 0);
+        }
+        if (tk == 3) {
+            int d = (int) r.below(100);
+            if (tg >= 0 && d < 15) by_action(q, false, false); else if (tg >= 0 && d < 35) by_action(q, false, true); else in_test(q, false, 1);
+            if (r.chance(35)) { if (tg >= 0 && r.chance(30)) by_action(q, true, true); else in_test(q, true, 2); }
+        }
+        if (tk == 1 || r.chance(30)) {
+            std::vector<int> inst, any;
+            for (size_t i = 0; i < P.U.size(); i++) if (P.U[i].type == PT_REC && (int) i != tg) { any.push_back((int) i); if (M->pos((int) i) >= 0) inst.push_back((int) i); }
+            int n = any.empty() ? 0 : r.range(1, 3);
+            for (int i = 0; i < n; i++) {
+                int t = (!inst.empty() && r.chance(85)) ? r.pick(inst) : r.pick(any);
+                bool en = r.chance(50);
+                if (tg >= 0 && r.chance(40)) by_action(t, en, r.chance(50)); else in_test(t, en, r.chance(15) ? 0 : 1);
+            }
+        }
     }
     if (r.chance(15)) {
         std::vector<int> cand;
@@ -959,9 +1137,36 @@ static void deactivate_spp(vf::Rng& r, const Program& P, Model& M, std::vector<C
         ops.push_back(o); M.apply(o);
     }
 }
-static void after_script(const Program& P, Model& M, const Script& s) {
-    if (!M.spp_active(P)) { if (s.nsets() > 0) M.stale = true; }
+// Generator-side bookkeeping of what a script does to the chain model: which enable() / disable() calls are reached (a phase ends at a failing
+// statement or at the 33rd redirection; a failed setup skips the body; teardown always runs), whether some installed SetPointerPlugin is enabled when
+// its post action is due. Used to choose the following workload (and for the self-check Script::predicted) - never as an oracle.
+// Exact as long as the table is empty when the test starts (the generators place switches in the test only then, or in front of every redirection).
+static void after_script(const Program& P, Model& M, Script& s) {
+    std::vector<char>& fl = M.enabled;
+    auto actions_of = [&](int p, bool post) { for (const ActTog& a : s.atog) if (a.by == p && a.post == post) fl[(size_t) a.target] = a.enable; };
+    for (int p : M.chain) if (fl[(size_t) p] && logs(P.U[(size_t) p].type)) actions_of(p, false);
+    int count = 0, attempted = 0;
+    bool setup_cut = false;
+    for (int ph = 0; ph < 3; ph++) {
+        if (ph == 1 && setup_cut) continue;
+        for (const Op& o : s.ph[ph]) {
+            bool cut = false;
+            if (o.kind == OP_SET) { attempted++; if (count >= LIMIT) cut = true; else count++; }
+            else if (is_toggle(o.kind)) fl[o.target] = o.kind == OP_ENABLE;
+            else cut = true;
+            if (cut) { if (ph == 0) setup_cut = true; break; }
+        }
+    }
+    bool consumed = false;
+    for (auto it = M.chain.rbegin(); it != M.chain.rend(); ++it) {
+        int p = *it;
+        if (!fl[(size_t) p]) continue;
+        if (is_spp(P.U[(size_t) p].type)) consumed = true;
+        if (logs(P.U[(size_t) p].type)) actions_of(p, true);
+    }
+    if (!consumed) { if (attempted > 0) M.stale = true; }
     else { M.discarded = false; M.discarded_mask = 0; }
+    if (s.switches_flags()) s.predicted = fl;
 }
 
 static void pick_names(vf::Rng& r, Program& P, size_t n, const std::vector<int>& types, const char* exclude = nullptr) {
@@ -1001,7 +1206,14 @@ static void sec_ptr_programs(vf::Ctx& c) {
             if (!M.stale && k + 1 < n && r.chance(25)) deactivate_spp(r, *P, M, st.ops);
             new_object_over_unrestored(r, *P, M, st.ops, r.chance(45));
         }
-        st.script = gen_script(r, *P, M.spp_active(*P), -1, false, &M, window);
+        // the SetPointerPlugin is installed but disabled when the test starts; the test (first statement of setup) or the pre action of another plugin
+        // switches it on, then the test redirects as usual (full distribution of redirection counts and endings, judged)
+        int force = 0;
+        if (!window && k > 0 && !M.stale && r.chance(6)) {
+            for (int p : std::vector<int>(M.chain)) if (is_spp(P->U[(size_t) p].type) && M.enabled[(size_t) p]) { ChainOp o; o.kind = r.chance(50) ? C_DISABLE : C_DISABLE_BYNAME; o.plugin = p; st.ops.push_back(o); M.apply(o); }
+            force = 2;
+        }
+        st.script = gen_script(r, *P, M.spp_active(*P), -1, false, &M, window, force);
         after_script(*P, M, st.script);
         P->steps.push_back(st);
     }
@@ -1255,6 +1467,65 @@ static void sec_unrestored_enum(vf::Ctx& c) {
     run_program(c, P);
 }
 
+// ---------------------------------------------------------------- section: enabled flags switched while a test runs, enumerated
+// chain H > A > S > B > T (S = SetPointerPlugin, recording / plain; the others recording plugins). One flag is switched while the first test runs:
+// target {A, S, B} x switched by {first statement of setup, first statement of the body, last statement of teardown, pre action of H (in front of the target),
+// pre action of T (behind it: the target's own pre action has been decided), post action of H (runs last), post action of T (runs first)} x initial flag {enabled, disabled}
+// x switched back {never, later in the test / in the post action of the same plugin, in the post action of T} x redirections {none, 3 in the body (one location twice),
+// 4 over setup / body / teardown} x ending {pass, FAIL in the body, CHECK_C in setup}. A plain second test (repeated location) follows; when the first test leaves
+// unrestored entries a new SetPointerPlugin object is constructed in between.
+static uint64_t switch_enum_total() { return 3 * 7 * 2 * 3 * 3 * 3; }
+static void sec_switch_enum(vf::Ctx& c) {
+    uint64_t i = c.idx;
+    int tsel = (int) (i % 3); i /= 3;
+    int where = (int) (i % 7); i /= 7;
+    int initial = (int) (i % 2); i /= 2;
+    int back = (int) (i % 3); i /= 3;
+    int sets = (int) (i % 3); i /= 3;
+    int ending = (int) (i % 3);
+    static const int TARGET[3] = { 3, 2, 1 };
+    const int T = 0, S = 2, H = 4, tgt = TARGET[tsel];
+    const int T0 = (int) (c.idx % NT), T1 = (T0 + 3) % NT;
+    auto P = std::make_shared<Program>();
+    static const char* NM[] = { "T", "B", "SetPointerPlugin", "A", "H" };
+    for (int k = 0; k < 5; k++) { PluginSpec u; u.name = NM[k]; u.type = k == S ? ((c.idx / 3) & 1 ? PT_SPP_PLAIN : PT_SPP_REC) : PT_REC; P->U.push_back(u); }
+    auto op = [](int kind, int p) { ChainOp o; o.kind = kind; o.plugin = p; return o; };
+    auto set = [](int t, int v) { Op o; o.kind = OP_SET; o.target = (uint8_t) t; o.value = (uint8_t) v; return o; };
+    Step a, b;
+    for (int k = 0; k < 5; k++) a.ops.push_back(op(C_INSTALL, k));
+    if (!initial) a.ops.push_back(op((c.idx & 1) ? C_DISABLE : C_DISABLE_BYNAME, tgt));
+    Script& s = a.script;
+    for (int t = 0; t < NT; t++) s.baseline[t] = (int8_t) (1 + (t + where) % 6);
+    if (sets == 1) { s.ph[1].push_back(set(T0, 2)); s.ph[1].push_back(set(T0, 4)); s.ph[1].push_back(set(T1, 6)); }
+    if (sets == 2) { s.ph[0].push_back(set(T0, 3)); s.ph[1].push_back(set(T0, 5)); s.ph[1].push_back(set(T1, 0)); s.ph[2].push_back(set(T1, 2)); }
+    if (ending == 1) { Op o; o.kind = OP_FAIL_CPP; o.target = o.value = 0; s.ph[1].push_back(o); }
+    if (ending == 2) { Op o; o.kind = OP_CHECK_C; o.target = o.value = 0; s.ph[0].push_back(o); }
+    const bool flip = !initial;
+    auto in_test = [&](int ph, bool front, bool en) { Op o; o.kind = en ? OP_ENABLE : OP_DISABLE; o.target = (uint8_t) tgt; o.value = 0; if (front) s.ph[ph].insert(s.ph[ph].begin(), o); else s.ph[ph].push_back(o); };
+    auto by_action = [&](int by, bool post, bool en) { ActTog x; x.by = by; x.post = post; x.target = tgt; x.enable = en; s.atog.push_back(x); };
+    switch (where) {
+    case 0: in_test(0, true, flip); break;
+    case 1: in_test(1, true, flip); break;
+    case 2: in_test(2, false, flip); break;
+    case 3: by_action(H, false, flip); break;
+    case 4: by_action(T, false, flip); break;
+    case 5: by_action(H, true, flip); break;
+    default: by_action(T, true, flip); break;
+    }
+    if (back == 1) { if (where < 3) in_test(2, false, !flip); else if (where < 5) by_action(where == 3 ? H : T, true, !flip); }
+    if (back == 2) by_action(T, true, !flip);
+    Model M(P.get());
+    for (const ChainOp& o : a.ops) M.apply(o);
+    after_script(*P, M, a.script);
+    if (M.stale) { b.ops.push_back(op(C_REMOVE, S)); b.ops.push_back(op(C_NEWOBJ, S)); b.ops.push_back(op(C_INSTALL, S)); }
+    else if (!M.enabled[S]) b.ops.push_back(op(C_ENABLE, S));
+    { b.script.ph[0].push_back(set(T0, 2)); b.script.ph[1].push_back(set(T0, 4)); b.script.ph[2].push_back(set(T1, 6)); b.script.baseline[T0] = 6; }
+    P->T = 2;
+    P->steps.push_back(a); P->steps.push_back(b);
+    P->runs.resize(1);
+    run_program(c, P);
+}
+
 int main(int argc, char** argv) {
     init_pool();
     reset_targets();
@@ -1263,6 +1534,7 @@ int main(int argc, char** argv) {
         { "limit_enumerated", limit_enum_total(), limit_enum_total(), sec_limit_enum, true },
         { "failing_actions_enumerated", failing_actions_total(), failing_actions_total(), sec_failing_actions_enum, true },
         { "unrestored_then_new_plugin_enumerated", unrestored_total(), unrestored_total(), sec_unrestored_enum, true },
+        { "flags_switched_while_a_test_runs_enumerated", switch_enum_total(), switch_enum_total(), sec_switch_enum, true },
         { "pointer_programs", 15000, 200000, sec_ptr_programs, false },
         { "chain_programs", 15000, 200000, sec_chain_programs, false },
         { "command_line_runner_programs", 6000, 80000, sec_runner, false },
